@@ -45,6 +45,27 @@ def field_obj(tags):
     return f
 
 
+_CTOR_ATTRS = None
+
+
+def constructor_attributes():
+    """names assigned as self.<name> in the current source of Simulation.__init__"""
+    global _CTOR_ATTRS
+    if _CTOR_ATTRS is None:
+        import ast
+        from pyvc import intake
+        node, _, _ = intake.func('simulations.Simulation.__init__')
+        out = set()
+        for n in ast.walk(node):
+            tg = n.targets if isinstance(n, ast.Assign) else [n.target] if isinstance(n, (ast.AugAssign, ast.AnnAssign)) else []
+            for t in tg:
+                for e in (t.elts if isinstance(t, ast.Tuple) else [t]):
+                    if isinstance(e, ast.Attribute) and isinstance(e.value, ast.Name) and e.value.id == 'self':
+                        out.add(e.attr)
+        _CTOR_ATTRS = out
+    return set(_CTOR_ATTRS)
+
+
 def mk_sim(pre, mv=0, case='isotropic'):
     obs = cx.DArr(cx.Store('data.observed', z3.Real('d_obs')))
     obs.store.deps = {('OBS',)}
@@ -64,6 +85,9 @@ def mk_sim(pre, mv=0, case='isotropic'):
         _dict_grid={SRC: {FRQ: None}}, _dict_efield={SRC: {FRQ: None}}, _dict_efield_info={SRC: {FRQ: None}},
         _gradient=None, _misfit=None, _computed=False, _srcfreq=[(SRC, FRQ)], _input_sc2=None, gridding_opts={}), mod='simulations')
     sim.fields['__strict__'] = True
+    # attributes the real constructor sets but this abstract state does not model: reading one makes the path undecided (a new cache added
+    # to the class must not be mistaken for an AttributeError of the code under contract)
+    sim.fields['__unmodelled__'] = constructor_attributes() - set(sim.fields)
     st = sim.fields
     if pre == 'results_only':        # after clean('keepresults'): responses, misfit kept; fields dropped
         pre_ = 'misfit'
